@@ -1738,6 +1738,12 @@ func (m *repoManager) commit(uuid dvid.UUID, note string, log []string) error {
 	// wait for the mutation requests that were admitted while the node was open
 	node.mutMu.Lock()
 	node.Lock()
+	if node.locked {
+		// another commit request got here first
+		node.Unlock()
+		node.mutMu.Unlock()
+		return fmt.Errorf("node %s already committed", uuid)
+	}
 	node.locked = true
 	if len(note) != 0 {
 		node.note = note
